@@ -17,6 +17,7 @@ def check(ctx):
     ctx.sub(s1_ownership)
     ctx.sub(s2_net_delta)
     ctx.sub(s3_presence)
+    ctx.sub(s3_presence_through)
     ctx.sub(s4_report)
     ctx.sub(s5_valuation)
     ctx.sub(mark_loop, 'C02.S5')
@@ -115,6 +116,8 @@ def s3_presence(ctx):
     ctx.floor('C02.S3', 'normal paths of transact_position', len(nps), 4)
     asset = A(TX, 'asset')
     loc = ('sub', A('self', 'positions'), asset)
+    deferred = []
+    ctx._c02_deferred = deferred
     for p in nps:
         held = None
         for c, v, _ in p.conds:
@@ -146,6 +149,13 @@ def s3_presence(ctx):
                 o = c[3] if c[2] == ZERO else c[2]
                 if T.teq(o, net) or T.teq(o, T.t_neg(net)):
                     zero = v
+        unread_test = [c for c, v, _ in p.conds if any(s_[0] == 'call' and s_[1][0] == 'fn' for s_ in T.subterms(c))
+                       and fmt(c) not in ('transaction.asset in self.positions',)]
+        if zero is None and unread_test:
+            # whether to drop the position is decided by what a call answered (what the fill did to the exposure, as the position itself reports it): read the whole
+            # step with that call followed to the end (s3_presence_through), once
+            deferred.append(cond_str(p)[:80])
+            continue
         if zero is None:
             ctx.violation('C02.S3', 'every path ends by testing whether the position\'s net quantity is zero [%s]' % cond_str(p), fn.site(),
                           'no test `net_quantity == 0` of the stored position on this path (expected net = %s)' % fmt(net), key='C02.S3|test')
@@ -153,6 +163,48 @@ def s3_presence(ctx):
         ctx.require(len(dels) == (1 if zero else 0), 'C02.S3', 'the position is removed iff its net quantity is zero [%s]' % cond_str(p),
                     dels[0].site if dels else fn.site(), '%d deletions' % len(dels), key='C02.S3|delete')
         ctx.sample({'rule': 'C02.S3', 'held': held, 'net_zero': zero, 'inserted': len(ins), 'deleted': len(dels)})
+
+
+def s3_presence_through(ctx):
+    """transact_position with every callee followed (the position's own transact, the classification of what the fill did): on every accepting path that ends with
+    the asset held before, the entry is deleted exactly when the net quantity the fill leaves behind is zero - whatever intermediate answer the deletion is hung on"""
+    deferred = getattr(ctx, '_c02_deferred', [])
+    if not deferred:
+        return
+    from ..vbm import all_inline
+    from ..symex import Undecided
+    qn = 'PositionHandler.transact_position'
+    fn = ctx.fn(qn)
+    what = 'the position is removed iff its net quantity is zero'
+    try:
+        ps = normal(summarise(ctx, qn, policy=all_inline, max_paths=2000))
+    except Undecided as u:
+        ctx.undecided('C02.S3', what, fn.site(), str(u)[:140])
+        return
+    loc = ('sub', A('self', 'positions'), A(TX, 'asset'))
+    judged = 0
+    for p in ps:
+        held = next((v for c, v, _ in p.conds if fmt(c) == 'transaction.asset in self.positions'), None)
+        if not held:
+            continue
+        post = lambda f_: p.heap.get(('attr', loc, f_), ('attr', loc, f_))
+        net_post = T.t_sub(post('buy_quantity'), post('sell_quantity'))
+        zero = None
+        for c, v, _ in p.conds:
+            if c[0] == 'cmp' and c[1] == '==' and ZERO in (c[2], c[3]):
+                o = c[3] if c[2] == ZERO else c[2]
+                if T.teq(o, net_post) or T.teq(o, T.t_neg(net_post)):
+                    zero = v
+        dels = [w for w in heap_writes(p, 'positions') if w.how == 'del' or w.how.startswith('mut:pop')]
+        if zero is None:
+            if dels:
+                ctx.undecided('C02.S3', what + ' [%s]' % cond_str(p)[:80], dels[0].site, 'deleted on a path that never compares the net quantity left behind (%s) with zero' % fmt(net_post)[:80])
+            continue
+        judged += 1
+        ctx.require(len(dels) == (1 if zero else 0), 'C02.S3', what + ' [%s]' % cond_str(p)[-110:], dels[0].site if dels else fn.site(),
+                    '%d deletion(s) although the net quantity left behind (%s) is %szero' % (len(dels), fmt(net_post)[:60], '' if zero else 'not '), key='C02.S3|delete')
+    if not judged:
+        ctx.undecided('C02.S3', what, fn.site(), 'decided by an answer this rule could not relate to the net quantity: %s' % deferred[0])
 
 
 def s4_report(ctx):
